@@ -8,7 +8,7 @@
 From Coq Require Import List NArith Bool.
 From Coq.Strings Require Import Byte.
 From EV Require Import Base.Bytes Base.Codec Base.Sha256 Gen.Tables Model.Tx Model.SighashImpl Model.SighashCache Model.SighashSpec Model.SighashQuery
-  Model.SighashCommit Proofs.SighashCache Proofs.Sighash Proofs.SighashCommit Proofs.SighashCommitTap Proofs.SighashCommitSeg Proofs.SighashCommitAll Proofs.SighashCanon Proofs.Tx.
+  Model.SighashCommit Proofs.SighashCache Proofs.Sighash Proofs.SighashCommit Proofs.SighashCommitTap Proofs.SighashCommitSeg Proofs.SighashCommitAll Proofs.SighashCanon Proofs.Tx Proofs.SighashWitness.
 Import ListNotations.
 Open Scope N_scope.
 
@@ -89,6 +89,11 @@ Theorem C03_script_sigs_and_witness_stacks_irrelevant : forall t t', tx_sig_eq t
   (forall spent idx annex leaf ht g, spec_taproot_msg pt_ok H t spent idx annex leaf ht g = spec_taproot_msg pt_ok H t' spent idx annex leaf ht g).
 Proof. intros t t' E. pose proof (tx_sig_core _ _ E) as C. repeat split; intros.
   - now apply legacy_core. - now apply segwit_core. - now apply taproot_sig. Qed.
+(* the same on the IMPLEMENTATION model, also where consensus defines nothing: pre-image, digest, error and panic of every query on a
+   fresh cache are independent of script_sig, script witness and pegin witness of all inputs (C13_witness_independent for sequences) *)
+Theorem C03_impl_ignores_script_sigs_and_witness_stacks : forall t t' o, tx_sig_eq t t' ->
+  impl_msg t o = impl_msg t' o /\ impl_digest t o = impl_digest t' o.
+Proof. exact (impl_sig pt_ok maxvec H Htag). Qed.
 (* legacy and segwit v0 ignore EVERY witness field: also the issuance range proofs and the output witnesses *)
 Theorem C03_legacy_segwit_ignore_all_witnesses : forall t t', tx_core_eq t t' ->
   (forall idx sc ht, spec_legacy_msg pt_ok flags t idx sc ht = spec_legacy_msg pt_ok flags t' idx sc ht) /\
